@@ -1005,6 +1005,12 @@ def _trig_sigs(draw):
 def trigkw_cases(draw):
     n_sigs = draw(st.sampled_from([1, 2, 3, 3]))
     sigs = [draw(_trig_sigs()) for _ in range(n_sigs)]
+    # one case in four is shaped for a positional call: one shared explicit signature that starts
+    # with an ordinary parameter and takes require_mc_truth, no nested combination
+    friendly = draw(st.integers(0, 3)) == 0
+    if friendly:
+        lead = [p for p in ["min_hits", "veto", "tag"] if draw(st.booleans())] or ["min_hits"]
+        sigs = [{"params": lead + ["require_mc_truth"], "varkw": draw(st.booleans())}]
 
     def leaf():
         return {"k": "leaf", "trig": draw(st.sampled_from(sigs)),
@@ -1017,7 +1023,7 @@ def trigkw_cases(draw):
             kk = draw(st.sampled_from(["leaf", "leaf", "leaf", "ant", "list", "comb"]))
             if kk == "leaf":
                 kids.append(leaf())
-            elif kk == "comb" and depth > 0:
+            elif kk == "comb" and depth > 0 and not friendly:
                 kids.append(comb(depth - 1))
             elif kk == "list":
                 kids.append({"k": "list", "ants": [draw(_ants(True, prebuilt=True, quiet=True))
@@ -1036,10 +1042,15 @@ def trigkw_cases(draw):
     accepted = set(p for sg in leaf_sigs if isinstance(sg, dict) for p in sg["params"])
     kwargs = _draw_kwargs(draw, {"min_hits": [1, 2, 3], "veto": [False, False, True],
                                  "tag": ["a", "b"]}, accepted, everything)
+    if friendly:
+        first = sigs[0]["params"][0]
+        kwargs.setdefault(first, {"min_hits": 2, "veto": False, "tag": "a"}[first])
     if draw(st.integers(0, 11)) == 0:
         kwargs["orphan"] = 1
+    # pos: how many leading parameters of the (shared) signature are passed positionally, which
+    # CombinedDetector.triggered allows when all its sub-detectors have the same signature
     return {"root": root, "kwargs": kwargs, "mc": draw(st.sampled_from([None, False, True])),
-            "seed": draw(gens.seeds32)}
+            "seed": draw(gens.seeds32), "pos": draw(st.sampled_from([0, 0, 1, 2, 3]))}
 
 
 def _accepts(sig, key):
@@ -1118,8 +1129,25 @@ def check_trigkw(case, rec):
     orphans = [k for k in user if k != "require_mc_truth" and not _anyone_accepts(root, k)]
     _S.log = []
     classes = []
+    args = ()
+    leaf_sigs = [s_.get("trig") for s_ in _walk(root) if s_["k"] == "leaf"]
+    if case.get("pos") and leaf_sigs and isinstance(leaf_sigs[0], dict) \
+            and all(sg == leaf_sigs[0] for sg in leaf_sigs) \
+            and all(k_["k"] != "comb" for k_ in root["kids"]) \
+            and any(k_["k"] == "leaf" for k_ in root["kids"]):
+        sg = leaf_sigs[0]
+        take = []
+        for p_ in sg["params"][:case["pos"]]:
+            if p_ == "require_mc_truth" or p_ not in user:
+                break
+            take.append(p_)
+        rest = [k_ for k_ in user if k_ not in take] + ["require_mc_truth"]
+        # (in this form every remaining keyword is handed to every sub-detector unfiltered)
+        if take and all(_accepts(sg, k_) for k_ in rest):
+            args = tuple(user.pop(p_) for p_ in take)
+            classes.append("positional")
     try:
-        got = top.triggered(**user)
+        got = top.triggered(*args, **user)
     except TypeError as exc:
         # a keyword no sub-detector takes may be refused (user error) or dropped
         if orphans and any(("'%s'" % k) in str(exc) for k in orphans):
@@ -1594,7 +1622,7 @@ PROPERTY = Property(
                       "require_mc_truth; result and the exact sequence of (sub-detector, received "
                       "keywords) vs reference; non-trivial = >= 2 sub-detector calls and >= 1 "
                       "keyword",
-                 floors={"mixed_signatures": 0.1, "filtered": 0.05, "nested_comb": 0.13,
+                 floors={"mixed_signatures": 0.08, "filtered": 0.05, "nested_comb": 0.1, "positional": 0.03,
                          "true": 0.14}, quick_shards=4,
                  classify=_classify_trigkw),
         SubCheck("build_kwargs", buildkw_cases(), check_buildkw, quick=1600, thorough=80000,
